@@ -751,6 +751,12 @@ class Interp:
             return False
         if isinstance(a, (bool, int)) and isinstance(b, (bool, int)):
             return a is b or (type(a) is type(b) and a == b)
+        from .core import FldKind
+        for x, y in ((a, b), (b, a)):
+            if isinstance(x, FldKind) and x.modulus is None and isinstance(y, ClassVal):
+                if hasattr(x, "is_class"):
+                    return x.is_class(y)
+                raise Unsupported(f"`type(x) is {y.name}` on an abstract field element (the unit must fix the class)")
         return a is b
 
     def contains(self, cont, x):
